@@ -19,8 +19,24 @@ def run_prop(p):
     return p, {"exit": r.returncode, "lines": lines[:4]}
 
 
+# which source files each property's units read (props.json -> templates -> //@ directives)
+def files_of(prop):
+    fs = set()
+    for u in json.load(open(os.path.join(ROOT, "contracts", "props.json")))[prop]["units"]:
+        for ln in open(os.path.join(ROOT, "contracts", u + ".vx")):
+            m = re.match(r"\s*//@(?:fn|arm|block|stmt|item)\s+(\S+)", ln)
+            if m:
+                fs.add(m.group(1))
+    return fs
+
+
+PROP_FILES = {p: files_of(p) for p in props}
+
 for label in labels:
     d = os.path.join(ROOT, "seeded", label)
+    touched = set(re.findall(r"^diff --git a/(\S+)", open(os.path.join(d, "patch.diff")).read(), re.M))
+    own_ = label[:3]
+    run_props = [p for p in props if p == own_ or (PROP_FILES[p] & touched)]
     assert subprocess.run(["git", "-C", "/repo", "diff", "--quiet"]).returncode == 0, "/repo dirty"
     ap = subprocess.run(["git", "-C", "/repo", "apply", os.path.join(d, "patch.diff")], stdout=subprocess.PIPE, stderr=subprocess.STDOUT, text=True)
     if ap.returncode != 0:
@@ -28,7 +44,9 @@ for label in labels:
         continue
     try:
         with ThreadPoolExecutor(max_workers=5) as ex:
-            results = dict(ex.map(run_prop, props))
+            results = dict(ex.map(run_prop, run_props))
+        for p in props:
+            results.setdefault(p, {"exit": 0, "lines": ["not run: the patch touches none of the files this property's units read"]})
     finally:
         subprocess.run(["git", "-C", "/repo", "checkout", "--", "."], check=True)
     mp = os.path.join(d, "meta.json")
